@@ -25,6 +25,7 @@ Require Import Cirbo.Model.Base Cirbo.Model.Gate Cirbo.Model.Circuit Cirbo.Model
 Require Import Cirbo.Proofs.TraverseInv Cirbo.Proofs.PassRebuild Cirbo.Proofs.PassRR Cirbo.Proofs.PassMU
         Cirbo.Proofs.PassMD Cirbo.Proofs.PassPipeline Cirbo.Proofs.PassTotal Cirbo.Proofs.PassAll
         Cirbo.Proofs.PassWitness Cirbo.Proofs.PassEntry.
+Require Import Cirbo.Generated.PassesGen Cirbo.Generated.PipelineGen Cirbo.Proofs.PassesGen.
 
 (* ---- RemoveRedundantGates() ---- *)
 Theorem C03_remove_redundant_gates : forall c c',
@@ -193,6 +194,46 @@ Theorem C03_merge_unary_operators_arity_needed :
   exists c', merge_unary_operators mu_wit = Ok c' /\ outputs c' = ["o"] /\
     (exists v, Eval c' [] "o" v) /\ (forall v, ~ Eval mu_wit [] "o" v).
 Proof. exact mu_arity_needed. Qed.
+
+(* ---- the model is the code: the pass ALGORITHMS are regenerated from the source on every run ----
+   Translator T15 (translator/t15_passes.py) turns every `_transform` of minimization/simplification/*.py (and the
+   helpers _find_equivalent_gates_groups / _replace_equivalent_gates / the dataclass _Keep of merge_equivalent_gates.py)
+   into Generated/PassesGen.v statement by statement: the nested closures with `nonlocal` state become state-passing
+   functions, `more_itertools.consume(circuit.dfs(.. hooks ..))` becomes the fold of the translated hooks over the
+   event log of Traverse.traverse, in order (T10 regenerates the traversal itself: C20), the dict keyed by
+   (type, *sorted(operands)) becomes an association list with `sorted` as insertion sort on strings, the shared
+   mutable _Keep objects become cells of a heap.  The regenerated functions EQUAL the hand model the theorems above
+   are about, for EVERY circuit (no well-formedness hypothesis).  _replace_equivalent_gates alone is equal for groups
+   without a repeated label whose members all have at least two elements (the library keeps the LAST group of a
+   repeated label, the model the FIRST), which is what _find_equivalent_gates_groups returns for every circuit. *)
+Theorem C03_passes_regenerated :
+  (forall allow c, gen_RemoveRedundantGates_transform allow c = remove_redundant_gates allow c) /\
+  (forall c, gen_MergeUnaryOperators_transform c = merge_unary_operators c) /\
+  (forall c, gen_MergeDuplicateGates_transform c = merge_duplicate_gates c) /\
+  (forall c, gen_find_equivalent_gates_groups c = find_equivalent_groups c) /\
+  (forall c groups, NoDup (concat groups) -> Forall (fun g => 1 < length g) groups ->
+     gen_replace_equivalent_gates c groups = replace_equivalent_gates c groups) /\
+  (forall c groups, find_equivalent_groups c = Ok groups ->
+     NoDup (concat groups) /\ Forall (fun g => 1 < length g) groups) /\
+  (forall c, gen_MergeEquivalentGates_transform c = merge_equivalent_gates c) /\
+  (forall t c,
+     match t with
+     | TRR a => gen_RemoveRedundantGates_transform a c
+     | TMU => gen_MergeUnaryOperators_transform c
+     | TMD => gen_MergeDuplicateGates_transform c
+     | TME => gen_MergeEquivalentGates_transform c
+     | TComp _ => Err PyTypeError
+     end = transform_leaf t c) /\
+  (* the pipeline machinery (Generated/PipelineGen.v): the class attribute __idempotent__, the pre / post
+     transformer lists that the constructors hand to Transformer.__init__ (as_distinct of a leaf is built from
+     them), the reduction loop Transformer.linearize_reduce_transformers and cleanup are regenerated;
+     linearize_transformers / as_distinct / apply_transformers / transform / `|` / the __eq__ methods are not *)
+  (forall t, gen_is_idempotent t = is_leaf_idempotent t) /\
+  (forall t, (forall ts, t <> TComp ts) ->
+     as_distinct t = linearize (gen_pre_transformers t) ++ [t] ++ linearize (gen_post_transformers t)) /\
+  (forall ts, gen_linearize_reduce_transformers ts = Ok (linearize_reduce ts)) /\
+  (forall c heavy, gen_cleanup c heavy = cleanup c heavy).
+Proof. exact passes_regenerated. Qed.
 
 (* ---- non-vacuity: inputs a b u; n1 = NOT a; n2 = NOT n1; g1 = AND(n2,b); g2 = AND(b,n2);
    e = OR(g1,g2); d = NOT b (dead); outputs e, g2, n2 ---- *)
